@@ -2,8 +2,8 @@
 import runner_props
 
 PROP = "C11"
-LEAN_MODULES = ["PamsProps.C11"]
-NAMESPACES = ["Pams.C11"]
+LEAN_MODULES = ["PamsProps.C11", "PamsProps.SimE2E"]
+NAMESPACES = ["Pams.C11", "Pams.C11"]
 DRIVERS = ["Runner", "Sim"]
 TRUSTED = [
     "scheduler model treats markets, agents, user events and random draws as oracles (tape recorded from the real run through public extension points: simulator_class, registered agent/market/event classes, prng subclass, Logger subclass)",
